@@ -21,7 +21,7 @@ def gen_mc(scn, workdir, tag="", fix=True, mut_norecheck=False, view=False, inva
     name = "MC_PC_%s%s" % (scn["name"], tag)
     senders = sorted(scn["senders"])
     def ops(s):
-        return "<< " + ", ".join('[q |-> "%s", kind |-> "%s"]' % (o["q"], o["kind"]) for o in scn["senders"][s]) + " >>"
+        return "<< " + ", ".join('[q |-> "%s", kind |-> "%s", via |-> "%s"]' % (o["q"], o["kind"], o.get("via", "pid")) for o in scn["senders"][s]) + " >>"
     opsdef = "[s \\in MC_Senders |-> " + "".join('IF s = "%s" THEN %s ELSE ' % (s, ops(s)) for s in senders) + "<< >>]"
     killers = scn["killers"]
     tof = "[k \\in MC_Killers |-> " + "".join('IF k = "%s" THEN "T%s" ELSE ' % (k, k[1:]) for k in killers) + '"T0"]'
@@ -37,6 +37,7 @@ def gen_mc(scn, workdir, tag="", fix=True, mut_norecheck=False, view=False, inva
     cfg.append("SPECIFICATION TraceSpec" if trace_file else "SPECIFICATION Spec")
     cfg += ["CONSTANTS", " Senders <- MC_Senders", " Ops <- MC_Ops", " Killers <- MC_Killers", " TOf <- MC_TOf", " RSeq <- MC_RSeq",
             " Limit = %d" % scn["limit"], " Trap = %s" % ("TRUE" if scn["trap"] else "FALSE"),
+            " WithSpawn = %s" % ("TRUE" if scn.get("spawn") else "FALSE"),
             " Fix_KillZombee = %s" % ("TRUE" if fix else "FALSE"),
             " Mut_NoRecheck = %s" % ("TRUE" if mut_norecheck else "FALSE"), " Mut_WakeBeforePush = FALSE"]
     if trace_file:
@@ -66,7 +67,7 @@ def gen_plans(scn, workdir, fix=True, maxlen=80, workers=4, timeout=300, limit_p
     plans = []
     for i, p in enumerate(paths):
         # step = [thread, action, expected pc of the thread after the step]
-        plans.append({"id": i + 1, "steps": [[args[0], act, pcs[dst].get(args[0], "?")] for (act, args, dst) in p]})
+        plans.append({"id": i + 1, "steps": [[(args[0] if args else "P"), act, pcs[dst].get((args[0] if args else "P"), "?")] for (act, args, dst) in p]})
     st.update({"graph_states": r.distinct, "graph_generated": r.generated})
     return plans, st
 
@@ -82,6 +83,11 @@ def node_pcs(label):
         if m:
             for th, pc in PC_RE.findall(m.group(1)):
                 out[th] = pc
+    m = re.search(r'/\\\\ sp = \[([^\]]*)\]', label)
+    if m:
+        for k, v in PC_RE.findall(m.group(1)):
+            if k == "pc":
+                out["P"] = v
     return out
 
 
@@ -120,4 +126,6 @@ def gen_obs(scn, workdir, trace_file, invariants, controlled=True, tag="_O"):
 
 
 def scn_for_harness(scn):
-    return {k: scn[k] for k in ("name", "senders", "killers", "runners", "limit", "trap")}
+    d = {k: scn[k] for k in ("name", "senders", "killers", "runners", "limit", "trap")}
+    d["spawn"] = bool(scn.get("spawn"))
+    return d
